@@ -5,25 +5,41 @@ use super::hostname::lex_hostname;
 use crate::TokenKind;
 
 pub fn lex_email_address(source: &[char]) -> Option<FoundToken> {
-    // Location of the @ sign
-    let (at_loc, _) = source.iter().enumerate().rev().find(|(_, c)| **c == '@')?;
+    // Location of the @ sign.
+    // The local part is at most 64 characters long, so only an `@` among the first 65
+    // characters can belong to an address that starts here. (Looking for the last `@` of the
+    // whole remaining text made an address unrecognisable whenever another `@` followed
+    // anywhere later in the document.)
+    let window = &source[..source.len().min(65)];
 
-    let local_part = &source[0..at_loc];
+    for at_loc in window
+        .iter()
+        .enumerate()
+        .rev()
+        .filter(|(_, c)| **c == '@')
+        .map(|(i, _)| i)
+    {
+        let local_part = &source[0..at_loc];
 
-    if !validate_local_part(local_part) {
-        return None;
+        if !validate_local_part(local_part) {
+            continue;
+        }
+
+        let Some(domain_part_len) = lex_hostname(&source[at_loc + 1..]) else {
+            continue;
+        };
+
+        if domain_part_len == 0 {
+            continue;
+        }
+
+        return Some(FoundToken {
+            next_index: at_loc + 1 + domain_part_len,
+            token: TokenKind::EmailAddress,
+        });
     }
 
-    let domain_part_len = lex_hostname(&source[at_loc + 1..])?;
-
-    if domain_part_len == 0 {
-        return None;
-    }
-
-    Some(FoundToken {
-        next_index: at_loc + 1 + domain_part_len,
-        token: TokenKind::EmailAddress,
-    })
+    None
 }
 
 /// Check to see if a given slice is a valid local part of an email address.
